@@ -331,6 +331,12 @@ def tableOfEntries (addr : Nat → Bytes) (es : List (Scalar × Scalar)) : Table
 
 def Table.entries (t : Table) : List (Scalar × Scalar) := t.entriesInSlotOrder.map fun s => (s.k, s.v)
 
+/-- executable form of the Table invariant "no two entries have eq keys" (checked by the driver on the Table states the op
+    files reach; the hypothesis of the Table copy/assign theorems) -/
+def entryKeysDistinctB (addr : Nat → Bytes) : List (Scalar × Scalar) → Bool
+  | [] => true
+  | e :: es => es.all (fun f => !keyEq addr e.1 f.1 && !keyEq addr f.1 e.1) && entryKeysDistinctB addr es
+
 /-! ## Tree: its iteration sequence (in-order walk; `Tree_Set` sends larger keys to the left, so keys descend) -/
 
 /-- `Tree_Set`: an entry whose key compares equal is overwritten (key and value are assigned), otherwise inserted in order -/
@@ -345,6 +351,12 @@ def treeSet (addr : Nat → Bytes) : List (Scalar × Scalar) → Scalar → Scal
 def treeRem (addr : Nat → Bytes) : List (Scalar × Scalar) → Scalar → Option (List (Scalar × Scalar))
   | [], _ => none
   | e :: es, k => if keyEq addr e.1 k then some es else (treeRem addr es k).map (e :: ·)
+
+/-- executable form of the Tree invariant "keys strictly descend along the iteration" (checked by the driver on every Tree
+    state the op files reach) -/
+def treeSeqB (addr : Nat → Bytes) : List (Scalar × Scalar) → Bool
+  | [] => true
+  | e :: es => es.all (fun f => match scalarCmp addr e.1 f.1 with | some c => decide (0 < c) | none => false) && treeSeqB addr es
 
 def treeOfEntries (addr : Nat → Bytes) (es : List (Scalar × Scalar)) : List (Scalar × Scalar) :=
   es.foldl (fun acc e => treeSet addr acc e.1 e.2) []
